@@ -98,6 +98,10 @@ func (b Bound) Contains(point Point) bool {
 // Intersects determines if two bounds intersect.
 // Returns true if they are touching.
 func (b Bound) Intersects(bound Bound) bool {
+	if b.IsEmpty() || bound.IsEmpty() {
+		return false
+	}
+
 	if (b.Max[0] < bound.Min[0]) ||
 		(b.Min[0] > bound.Max[0]) ||
 		(b.Max[1] < bound.Min[1]) ||
